@@ -273,11 +273,55 @@ func c16(w *core.World, r *core.Report) {
 	}
 
 	// ---- NO-SLOT-POLL
-	r.Rule("NO-SLOT-POLL", 1, "no CFG cycle contains a RegisterTransaction call while dmutex is held: Confirm/Cancel need dmutex, so a TransactionSet that waits for the slot would make them fail as locked.")
+	r.Rule("NO-SLOT-POLL", 2, "no CFG cycle contains a RegisterTransaction call while dmutex is held, and RegisterTransaction itself never waits (no select, channel receive, sleep, timer or Wait in it or its callees in package types): Confirm/Cancel need dmutex, so a TransactionSet that waits for the slot would make them fail as locked.")
 	for _, c := range w.CallersOfKey(kRegisterTx) {
 		f := c.Parent()
 		holds := lw.HoldsAt(c, "datastore.Datastore.dmutex", "W", nil)
 		r.Check(!(holds && core.OnCycle(c)), "NO-SLOT-POLL", core.Site(f, "call RegisterTransaction"), w.InstrPos(c), "RegisterTransaction is retried in a loop while dmutex is held")
+	}
+
+	// ... and RegisterTransaction itself does not wait: nothing it executes (static callees in package types, depth 3)
+	// receives from a channel, selects, sleeps or arms a timer
+	if reg := w.Func("pkg/datastore/types", "TransactionManager", "RegisterTransaction"); reg != nil {
+		seen := map[*ssa.Function]bool{}
+		var waits func(f *ssa.Function, d int) string
+		waits = func(f *ssa.Function, d int) string {
+			if f == nil || f.Blocks == nil || seen[f] || d > 3 {
+				return ""
+			}
+			seen[f] = true
+			for _, b := range f.Blocks {
+				for _, in := range b.Instrs {
+					switch x := in.(type) {
+					case *ssa.Select:
+						if x.Blocking {
+							return core.FuncKey(f) + ": select"
+						}
+					case *ssa.UnOp:
+						if x.Op == token.ARROW {
+							return core.FuncKey(f) + ": channel receive"
+						}
+					case ssa.CallInstruction:
+						if _, isGo := x.(*ssa.Go); isGo {
+							continue
+						}
+						if k := core.CalleeKey(x); k == "time.Sleep" || k == "time.After" || k == "time.NewTicker" || k == "time.NewTimer" || k == "time.Tick" || k == "sync.WaitGroup.Wait" || k == "sync.Cond.Wait" {
+							return core.FuncKey(f) + ": " + k
+						}
+						if g := x.Common().StaticCallee(); g != nil && g.Pkg != nil && g.Pkg.Pkg.Path() == core.Module+"/pkg/datastore/types" {
+							if _, isDefer := x.(*ssa.Defer); !isDefer || true {
+								if wv := waits(g, d+1); wv != "" {
+									return wv
+								}
+							}
+						}
+					}
+				}
+			}
+			return ""
+		}
+		wv := waits(reg, 0)
+		r.Check(wv == "", "NO-SLOT-POLL", core.Site(reg, "does not wait"), w.Pos(reg.Pos()), "RegisterTransaction is called with the datastore lock held; it must answer at once, but it waits: "+wv)
 	}
 
 	// ---- LOCK-ORDER
